@@ -474,11 +474,26 @@ func runC18(c C18Case, o *run.Obs) error {
 				_ = safely(func() { r.b, r.err = p.Load(ctx, name) })
 				r1 <- r
 			}()
+			var firstEarly *res
 			select {
 			case <-arrived:
-			case <-time.After(3 * time.Second):
+			case r := <-r1:
+				// answered without asking the client: nothing is pending, so there is no overlap to look at
+				firstEarly = &r
+			case <-time.After(120 * time.Second):
 				close(hold)
-				return fmt.Errorf("harness: the first Load never reached the S3 client")
+				return fmt.Errorf("harness: the first Load neither reached the S3 client nor returned within 120 s")
+			}
+			if firstEarly != nil {
+				close(hold)
+				fake.mu.Lock()
+				fake.holdGet, fake.getArrived = nil, nil
+				fake.mu.Unlock()
+				if firstEarly.err == nil {
+					return fmt.Errorf("%s %s: Load(%q) of a name never written returned %d bytes and no error", desc, when, name, len(firstEarly.b))
+				}
+				o.Label("heldload:answered-without-the-client")
+				continue
 			}
 			if err := p.Store(ctx, name, payload); err != nil {
 				close(hold)
@@ -500,8 +515,8 @@ func runC18(c C18Case, o *run.Obs) error {
 				close(hold)
 				select {
 				case second = <-r2:
-				case <-time.After(10 * time.Second):
-					return fmt.Errorf("harness: a Load did not return within 10 s")
+				case <-time.After(120 * time.Second):
+					return fmt.Errorf("harness: a Load did not return within 120 s")
 				}
 			}
 			first := <-r1
